@@ -221,5 +221,13 @@ func GenReadRange(t *rapid.T, size int64, label string) (off uint64, n uint32) {
 	if ln > 0x7fffffff {
 		ln = 0x7fffffff
 	}
+	// the offset is an unsigned 64-bit number: the upper half of its range - read as signed it is negative - and in
+	// particular the first 'size' offsets above 2^63 (where size - offset wraps to something small and positive)
+	switch rapid.IntRange(0, 15).Draw(t, label+"-top") {
+	case 0:
+		return 1<<63 + uint64(rapid.Int64Range(0, size+2).Draw(t, label+"-top-in")), uint32(ln)
+	case 1:
+		return GenHugeOffset(t, label+"-top-huge") | 1<<63, uint32(ln)
+	}
 	return uint64(o), uint32(ln)
 }
